@@ -13,10 +13,10 @@
 (* Deliberate leniencies (accepted, never flagged): bit depths 1-3 through *)
 (* the STREAMINFO code, sample rate 0, over-long coded numbers, the        *)
 (* reserved header bit, an empty first partition (bs/2^po = order).        *)
-(* 33-bit side channels of 32-bit stereo are modelled for CONSTANT and      *)
-(* VERBATIM side subframes without wasted bits (pair arithmetic, TLC        *)
-(* integers being 32-bit); predicted 33-bit subframes yield the note        *)
-(* "unsupported:33bit".                                                     *)
+(* 33-bit side channels of 32-bit stereo are modelled in pair arithmetic    *)
+(* (TLC integers being 32-bit): CONSTANT, VERBATIM, FIXED and LPC           *)
+(* subframes, the predictor sums in three 16-bit limbs; with wasted bits    *)
+(* the subframe is an ordinary one of <= 32 bits whose values are widened.  *)
 (***************************************************************************)
 EXTENDS Integers, Sequences, FiniteSets, Bitwise, SequencesExt, TLC
 
@@ -243,6 +243,36 @@ WFits32(a) == a[1] >= -32768 /\ a[1] <= 32767
 WInt(a) == a[1] * 65536 + a[2]
 WHalf(a) == <<a[1] \div 2, ((a[1] % 2) * 65536 + a[2]) \div 2>>        \* floor(a / 2)
 W33(b, p) == <<S(b, p, 17), U(b, p + 17, 16)>>                          \* 33-bit two's complement at bit p
+WFits33(a) == a[1] >= -65536 /\ a[1] <= 65535
+RECURSIVE WShl(_, _)
+WShl(a, w) == IF w = 0 THEN a ELSE WShl(WNorm(2 * a[1], 2 * a[2]), w - 1)      \* a * 2^w (the caller knows it stays within 33 bits)
+
+\* Predictors on the 33-bit channel.  ws = samples as pairs (|value| < 2^32), |coef| < 2^15, 0 <= shift <= 15.
+\* The sum of up to 32 products is kept in three limbs <<c, b, a>> = a * 2^32 + b * 2^16 + c (0 <= b, c < 2^16), so that no
+\* intermediate value leaves TLC's 32-bit integers.  Returns <<ok, floor(sum / 2^shift) as a pair>>; ok = FALSE when that prediction
+\* itself leaves the 33-bit range (no valid stream needs such a predictor step; the exact value is then not defined here).
+PredPairs(ws, n, coef, ord, shift) ==
+    LET Step(a, j) ==
+            LET c == coef[j]  x == ws[n + 1 - j]
+                a0 == a[1] + c * x[2]
+                a1 == a[2] + c * x[1] + (a0 \div 65536)
+                a2 == a[3] + (a1 \div 65536)
+            IN <<a0 % 65536, a1 % 65536, a2>>
+        acc == FoldLeft(Step, <<0, 0, 0>>, [j \in 1..ord |-> j])
+    IN IF acc[3] < -P2(shift + 1) \/ acc[3] > P2(shift + 1) THEN <<FALSE, <<0, 0>> >>
+       ELSE LET hi == acc[3] * P2(16 - shift) + (acc[2] \div P2(shift))
+                lo == (acc[2] % P2(shift)) * P2(16 - shift) + (acc[1] \div P2(shift))
+            IN <<WFits33(<<hi, lo>>), <<hi, lo>> >>
+\* warm = first `ord` samples (pairs), res = residuals (32-bit integers).  Every produced sample must fit 33 bits; one that does not
+\* is replaced by 0 and reported (as in Predict).  Returns [s, bad].
+PredictW(warm, res, coef, shift) ==
+    LET ord == Len(coef)
+        Step(st, r) ==
+            LET pw == IF ord = 0 THEN <<TRUE, <<0, 0>> >> ELSE PredPairs(st.s, Len(st.s), coef, ord, shift)
+                v == WAdd(pw[2], WOf(r))
+                ok == pw[1] /\ WFits33(v)
+            IN [s |-> Append(st.s, IF ok THEN v ELSE <<0, 0>>), bad |-> st.bad \/ ~ok]
+    IN FoldLeft(Step, [s |-> warm, bad |-> FALSE], res)
 
 -----------------------------------------------------------------------------
 (* Subframe at bit p with nominal depth bps0 (side channels: +1).           *)
@@ -258,16 +288,47 @@ Subframe(b, p, bs, bps0) ==
                    \cup (IF w >= bps0 THEN {"wasted bits >= depth"} ELSE {})
         \* undo wasted bits; bps + w <= 32 so the product fits, but 2^31 itself is not a TLC integer
         Shl1(x) == IF w <= 30 THEN x * P2(w) ELSE IF x = 0 THEN 0 ELSE (-2147483647) - 1
-        Shl(s) == IF w = 0 THEN s ELSE [i \in 1..Len(s) |-> Shl1(s[i])]
+        Shl(s) == IF w = 0 \/ bps0 = 33 THEN s ELSE [i \in 1..Len(s) |-> Shl1(s[i])]      \* (33-bit channel: widened in pair arithmetic below)
         Bad(e) == [pos |-> q, s |-> [i \in 1..bs |-> 0], errs |-> hdrErrs \cup e, info |-> [type |-> "invalid", order |-> 0, wasted |-> w]]
-    IN IF bps0 = 33 /\ w = 0 /\ ty \in {0, 1}
-       THEN \* a 33-bit side channel, CONSTANT or VERBATIM only: the values are returned as pairs in info.wide
-            [pos |-> q + (IF ty = 0 THEN 33 ELSE bs * 33), s |-> [i \in 1..bs |-> 0], errs |-> hdrErrs,
-             info |-> [type |-> IF ty = 0 THEN "constant" ELSE "verbatim", order |-> 0, wasted |-> 0,
-                       wide |-> [i \in 1..bs |-> W33(b, IF ty = 0 THEN q ELSE q + (i - 1) * 33)]]]
-       ELSE IF w >= bps0 \/ bps0 > 32 THEN Bad(IF bps0 > 32 THEN {"unsupported:33bit"} ELSE {})
-       ELSE
-       CASE ty = 0 ->
+        ZeroS == [i \in 1..bs |-> 0]
+        \* the 33-bit side channel of 32-bit audio without wasted bits: every value is a pair, returned in info.wide
+        Wide33 ==
+            CASE ty = 0 ->
+                   [pos |-> q + 33, s |-> ZeroS, errs |-> hdrErrs,
+                    info |-> [type |-> "constant", order |-> 0, wasted |-> 0, wide |-> [i \in 1..bs |-> W33(b, q)]]]
+              [] ty = 1 ->
+                   [pos |-> q + bs * 33, s |-> ZeroS, errs |-> hdrErrs,
+                    info |-> [type |-> "verbatim", order |-> 0, wasted |-> 0, wide |-> [i \in 1..bs |-> W33(b, q + (i - 1) * 33)]]]
+              [] ty \in 8..12 ->
+                   LET ord == ty - 8 IN
+                   IF ord > bs THEN Bad({"fixed order exceeds block size"})
+                   ELSE LET warm == [i \in 1..ord |-> W33(b, q + (i - 1) * 33)]
+                            r == Residual(b, q + ord * 33, bs, ord)
+                            ok == r.errs \subseteq {"residual is the most negative value"} /\ Len(r.out) = bs - ord
+                            pr == IF ok THEN PredictW(warm, r.out, FixedC[ord + 1], 0) ELSE [s |-> [i \in 1..bs |-> <<0, 0>>], bad |-> FALSE]
+                        IN [pos |-> r.pos, s |-> ZeroS, errs |-> hdrErrs \cup r.errs \cup (IF pr.bad THEN {"sample exceeds subframe depth"} ELSE {}),
+                            info |-> [type |-> "fixed", order |-> ord, wasted |-> 0, po |-> r.po, method |-> r.method, params |-> r.params, wide |-> pr.s]]
+              [] ty >= 32 ->
+                   LET ord == ty - 31 IN
+                   IF ord > bs THEN Bad({"lpc order exceeds block size"})
+                   ELSE LET warm == [i \in 1..ord |-> W33(b, q + (i - 1) * 33)]
+                            q2 == q + ord * 33
+                            precc == U(b, q2, 4)
+                            prec == precc + 1
+                            shift == S(b, q2 + 4, 5)
+                            coef == [i \in 1..ord |-> S(b, q2 + 9 + (i - 1) * prec, prec)]
+                            r == Residual(b, q2 + 9 + ord * prec, bs, ord)
+                            perr == (IF precc = 15 THEN {"reserved coefficient precision"} ELSE {})
+                                    \cup (IF shift < 0 THEN {"negative lpc shift"} ELSE {})
+                            ok == r.errs \subseteq {"residual is the most negative value"} /\ perr = {} /\ Len(r.out) = bs - ord
+                            pr == IF ok THEN PredictW(warm, r.out, coef, shift) ELSE [s |-> [i \in 1..bs |-> <<0, 0>>], bad |-> FALSE]
+                        IN [pos |-> r.pos, s |-> ZeroS, errs |-> hdrErrs \cup perr \cup r.errs \cup (IF pr.bad THEN {"sample exceeds subframe depth"} ELSE {}),
+                            info |-> [type |-> "lpc", order |-> ord, wasted |-> 0, po |-> r.po, method |-> r.method, params |-> r.params,
+                                      precision |-> prec, shift |-> shift, coef |-> coef, wide |-> pr.s]]
+              [] OTHER -> Bad({"reserved subframe type"})
+        \* every other case: at most 32 significant bits (a 33-bit channel WITH wasted bits included; its values are then widened below)
+        Narrow ==
+            CASE ty = 0 ->
               [pos |-> q + bps, s |-> Shl([i \in 1..bs |-> S(b, q, bps)]), errs |-> hdrErrs,
                info |-> [type |-> "constant", order |-> 0, wasted |-> w]]
          [] ty = 1 ->
@@ -302,6 +363,14 @@ Subframe(b, p, bs, bps0) ==
                        info |-> [type |-> "lpc", order |-> ord, wasted |-> w, po |-> r.po, method |-> r.method, params |-> r.params,
                                  precision |-> prec, shift |-> shift, coef |-> coef]]
          [] OTHER -> Bad({"reserved subframe type"})
+    IN IF w >= bps0 THEN Bad({})
+       ELSE IF bps0 = 33 /\ w = 0 THEN Wide33
+       ELSE IF bps0 = 33
+       THEN LET nr == Narrow IN
+            IF nr.info.type = "invalid" THEN nr
+            ELSE [pos |-> nr.pos, s |-> ZeroS, errs |-> nr.errs,
+                  info |-> [k \in DOMAIN nr.info \cup {"wide"} |-> IF k = "wide" THEN [i \in 1..bs |-> WShl(WOf(nr.s[i]), w)] ELSE nr.info[k]]]
+       ELSE Narrow
 
 -----------------------------------------------------------------------------
 (* Frame at byte offset o.  [errs, next, ch, bs, hdr, subs, padOk]          *)
